@@ -23,7 +23,7 @@ WORKERS = {"quick": 8, "thorough": 16}
 WATCHDOG = {"quick": 900, "thorough": 3400}
 R_ALL = ["R1-comment", "R2-blank-lines", "R3-indent", "R4-spacing", "R5-crlf", "R5-crlf-mixed", "R6-wrap", "R6-wrap-before-semicolon", "R7-comma",
          "R8-semicolons", "R9-end-added", "R9-end-removed", "R10-bom", "R11-multifile", "R12-file-vs-string"]
-REQUIRED = {**{r: 10 for r in R_ALL}, "isolated:R5-crlf": 2, "isolated:R10-bom": 2, "isolated:R8-semicolons": 2, "isolated:R6-wrap": 2, "isolated:R7-comma": 2,
+REQUIRED = {"multifile-first-part-larger-than-100kB": 3, **{r: 10 for r in R_ALL}, "isolated:R5-crlf": 2, "isolated:R10-bom": 2, "isolated:R8-semicolons": 2, "isolated:R6-wrap": 2, "isolated:R7-comma": 2,
             "isolated:R1-comment": 2, "multifile-cut-between-two-lines-of-a-decay-block": 5, "isolated:R11-multifile": 2, "isolated:R9-end-added": 2,
             "crlf+wrapped-params": 5, "bom-on-later-file": 3, "bom-on-first-file": 3, "multifile-end-in-every-file": 3, "multifile-no-trailing-newline": 3, "multifile-end-line-variants": 5, "multifile-crlf-end-line": 3,
             "text-closes-with-word-ending-in:n": 3, "text-closes-with-word-ending-in:d": 2, "text-closes-with-word-ending-in:E": 2, "string-ends-in-a-comment-without-newline": 5, "single-file-no-trailing-newline": 5, "single-file-larger-than-a-megabyte": 1, "variant-parsed-twice": 20, "master-file-variant": 2, "corpus-base": 20, "generated-base": 20, "snapshot-with-chains": 20}
